@@ -703,7 +703,7 @@ theorem field_succ (h : Inv env f) (n : String) (ft : FieldTag) (T : Ty) (rest :
     have hr := Slice.readUint_prepend s tg.len tg.val [] [] hg.1
     simp only [List.append_nil, Nat.mod_eq_of_lt hg.2] at hr
     simp only [decodeField, Slice.prepend_isLibrary, hs, Bool.false_eq_true, ↓reduceIte, decodeMagic, hr,
-      ne_eq, not_true_eq_false, Slice.prepend_nil]
+      ne_eq, not_true_eq_false, Slice.prepend_nil, bind, Outcome.bind]
   · rw [encodeField_notMagic ft T v b hT] at he
     rw [inDomField_notMagic ft T v hT] at hd
     rcases hcase with ⟨rfl, hwb⟩ | ⟨rfl, hwr⟩ | ⟨m, t, rfl, rfl, hwb⟩ | ⟨m, t, rfl, rfl, hwr⟩
